@@ -8,5 +8,5 @@ Set Extraction KeepSingleton.
 Extraction "model.ml"
   rs_new rs_input rs_sum bh_new bh_init bh_input bh_sum bh_full
   chunk_stream chunk_oneshot valid_config filter_mask spec_chunks
-  strip_in_place reorder_ops reorder_in_place feed o_init ci_add
+  strip_in_place reorder_ops reorder_in_place feed o_init ci_add clone_model
   N.of_nat N.to_nat.
